@@ -30,6 +30,7 @@ type chunkReader struct {
 	n     int64 // total length
 	pos   int64
 	chunk int // max bytes per Read (0 = as much as fits)
+	eofWithData bool // the last piece is returned together with io.EOF (as io.Reader allows)
 	data  string // "pat" (default), "zero", "holes"
 	pss   int64
 }
@@ -71,6 +72,9 @@ func (r *chunkReader) Read(p []byte) (int, error) {
 		p[i] = c13Byte(r.data, r.tag, r.pos+i, r.pss)
 	}
 	r.pos += k
+	if r.eofWithData && r.pos >= r.n {
+		return int(k), io.EOF
+	}
 	return int(k), nil
 }
 
@@ -176,8 +180,8 @@ func c13Exec(s map[string]string) map[string]any {
 	}
 	// ---- write
 	rl := map[string]int64{"zero": 0, "minus1": psize - 1, "exact": psize, "plus1": psize + 1}[s["rlen"]]
-	ch := map[string]int{"whole": 0, "one": 1, "c513": 513, "pssp1": int(pss) + 1}[s["chunk"]]
-	rd := &chunkReader{tag: 7, n: rl, chunk: ch, data: s["data"], pss: pss}
+	ch := map[string]int{"whole": 0, "one": 1, "c513": 513, "pssp1": int(pss) + 1, "eofdata": 512}[s["chunk"]]
+	rd := &chunkReader{tag: 7, n: rl, chunk: ch, data: s["data"], pss: pss, eofWithData: s["chunk"] == "eofdata"}
 	p1 := memdev.Range{Off: start * lss, Len: psize}
 	d.ResetLog()
 	d.FailOutside = []memdev.Range{p1}
